@@ -79,6 +79,10 @@ func dispatch(kind string, args []*Sexp) (out *Sexp) {
 	case "evalseq":
 		return runEvalSeq(args)
 	}
+	switch kind {
+	case "history":
+		return runHistory(args)
+	}
 	return L(A("unknown-kind"), A(kind))
 }
 
